@@ -9,7 +9,7 @@
 From Coq Require Import List Bool NArith Permutation Sorted.
 Import ListNotations.
 From Verif Require Import DescWrapModel DescWrapProofs DescWrapStd DescWrapSort DescWrapKeys DescWrapSplit
-  DescWrapFind DescWrapPaths.
+  DescWrapFind DescWrapPaths DescWrapParse DescWrapEntry.
 Local Open Scope N_scope.
 
 (* ---------------------------------------------------------------- push_roundtrip *)
@@ -201,21 +201,49 @@ Theorem C16_expand_paths : forall pre a0 others post,
 Proof. exact expand_paths_tuple. Qed.
 Print Assumptions C16_expand_paths.
 
-(* selecting commutes with printing when the first two alternatives differ *)
-Theorem C16_print_select_partial : forall o x pre a0 a1 rest post w i,
-  step_eqb a0 a1 = false -> (i < length (a0 :: a1 :: rest))%nat ->
-  let k := KMulti o x (map (fun a => pre ++ a :: post) (a0 :: a1 :: rest)) w in
-  print_key_path (select_key i k) = map (select_tok i) (print_key_path k).
-Proof. exact print_select_commutes. Qed.
-Print Assumptions C16_print_select_partial.
+(* ---------------------------------------------------------------- the key-path parser *)
+(* parse_xkey_deriv (after /repo 109461ce) accepts exactly: plain steps, or plain steps with ONE
+   tuple of at least two pairwise distinct indexes, optionally followed by one final wildcard;
+   and yields the paths  pre ++ a :: post. *)
+Theorem C16_key_path_parser : forall toks ps w,
+  parse_xkey_deriv toks = POk (ps, w) <-> shape toks ps w.
+Proof. exact (fun toks ps w => conj (parse_xkey_deriv_sound toks ps w) (parse_xkey_deriv_complete toks ps w)). Qed.
+Print Assumptions C16_key_path_parser.
 
-(* FULL STATEMENT: for every tuple.  Refuted: <0;0;1> prints as /0 (only the first two
-   paths are compared by fmt_derivation_paths). *)
-Theorem C16_print_select_refuted : exists k i,
-  (i < length (match k with KMulti _ _ ps _ => ps | _ => [] end))%nat /\
-  print_key_path (select_key i k) <> map (select_tok i) (print_key_path k).
-Proof. exact print_select_refuted. Qed.
-Print Assumptions C16_print_select_refuted.
+(* a tuple that lists an index twice - in any positions - is rejected *)
+Theorem C16_duplicate_alternative_rejected : forall o x depth pre l rest,
+  ~ NoDup l -> exists e, parse_xpub_key o x depth (map TStep pre ++ TAlts l :: rest) = PErr e.
+Proof. exact duplicate_alternative_rejected. Qed.
+Print Assumptions C16_duplicate_alternative_rejected.
+
+(* FULL STATEMENTS (hold for the code after /repo 109461ce), for EVERY key the parser accepts:
+   printing is the inverse of parsing, and selecting alternative i commutes with printing. *)
+Theorem C16_print_parse_id : forall o x depth toks k,
+  parse_xpub_key o x depth toks = POk k -> print_key_path k = toks.
+Proof. exact print_parse_id. Qed.
+Print Assumptions C16_print_parse_id.
+
+Theorem C16_print_select : forall o x depth toks k i,
+  parse_xpub_key o x depth toks = POk k ->
+  (key_is_multipath k = true -> (i < n_paths k)%nat) ->
+  print_key_path (select_key i k) = map (select_tok i) (print_key_path k).
+Proof. exact print_select_parsed. Qed.
+Print Assumptions C16_print_select.
+
+(* an accepted multipath key has >= 2 pairwise different paths (the invariant assumed by
+   C16_multipath_split); every well-formed text within the BIP32 depth budget is accepted *)
+Theorem C16_parsed_multipath_paths : forall o x depth toks k,
+  parse_xpub_key o x depth toks = POk k -> key_is_multipath k = true ->
+  (2 <= n_paths k)%nat /\ NoDup (match k with KMulti _ _ ps _ => ps | _ => [] end).
+Proof. exact parsed_multipath_paths. Qed.
+Print Assumptions C16_parsed_multipath_paths.
+
+Theorem C16_parse_xpub_key_complete : forall o x depth toks k,
+  parsed_key o x toks k ->
+  (forall p, In p (key_paths k) -> depth + N.of_nat (length p) + wildcard_steps (key_wild k) <= 255) ->
+  parse_xpub_key o x depth toks = POk k.
+Proof. exact parse_xpub_key_complete. Qed.
+Print Assumptions C16_parse_xpub_key_complete.
 
 (* ---------------------------------------------------------------- derive_commutes *)
 (* If every key is derivable at i from public data, at_derivation_index succeeds, replaces
@@ -239,6 +267,18 @@ Theorem C16_derive_rejects : forall i d,
   (exists k, In k (desc_keys d) /\ derivable i k = false) -> exists e, at_derivation_index i d = KErr e.
 Proof. exact at_index_err. Qed.
 Print Assumptions C16_derive_rejects.
+
+(* the entry points agree: without a wildcard derive_at_index reports NoWildcard and (on a
+   single-path descriptor) into_definite = at_derivation_index at any index; with a wildcard
+   derive_at_index = at_derivation_index and into_definite reports Wildcard *)
+Theorem C16_derivation_entry_points : forall i d,
+  (desc_has_wildcard d = false ->
+     derive_at_index i d = KErr ENoWildcard /\
+     (desc_is_multipath d = false -> into_definite d = at_derivation_index i d)) /\
+  (desc_has_wildcard d = true ->
+     derive_at_index i d = at_derivation_index i d /\ into_definite d = KErr EWildcard).
+Proof. exact derivation_entry_points. Qed.
+Print Assumptions C16_derivation_entry_points.
 
 (* find_derivation_index_for_spk is the inverse of derivation on the given range *)
 Theorem C16_find_index : forall (spk_of : desc dkey -> option bytes) range d t,
@@ -274,6 +314,21 @@ Proof. intros a b [<-|[<-|[]]] [<-|[<-|[]]] H; try reflexivity; discriminate. Qe
 (* the witness that refuted "error otherwise" before the repair is now rejected *)
 Example former_mismatch_witness_rejected : into_single_descriptors mismatch_witness = KErr ELenMismatch.
 Proof. exact mismatch_witness_rejected. Qed.
+
+(* the inputs on which "selecting commutes with printing" failed before /repo 109461ce (the
+   tuple <0;0;1> was printed as /0) are now rejected, wherever the repetition is *)
+Example duplicate_tuples_rejected :
+  let s := Step false in
+  parse_xpub_key None 0 0 [TAlts [s 0; s 0; s 1]; TWild WUnhardened] = PErr PInvalidMultiIndexStep /\
+  parse_xpub_key None 0 0 [TAlts [s 0; s 0]; TWild WUnhardened] = PErr PInvalidMultiIndexStep /\
+  parse_xpub_key None 0 0 [TAlts [s 0; s 1; s 0]; TWild WUnhardened] = PErr PInvalidMultiIndexStep /\
+  parse_xpub_key None 0 0 [TAlts [s 0; s 1; s 1]; TWild WUnhardened] = PErr PInvalidMultiIndexStep.
+Proof. repeat split. Qed.
+
+Example parse_example :
+  parse_xpub_key None 3 1 [TStep (Step true 44); TAlts [Step false 0; Step false 1]; TWild WUnhardened]
+  = POk (KMulti None 3 [[Step true 44; Step false 0]; [Step true 44; Step false 1]] WUnhardened).
+Proof. reflexivity. Qed.
 
 Example split_example :
   into_single_descriptors (DWpkh (KMulti None 0 [[Step false 0]; [Step false 1]] WUnhardened))
